@@ -17,6 +17,12 @@ type propDoc struct {
 func writeEvidence(path, prop, tier string, seed int, c *Ctx, violated, known []Obligation,
 	undecided []string, extra map[string]any, wall time.Duration, doc propDoc) {
 	cov := map[string]any{}
+	if doc.Assumptions == nil {
+		doc.Assumptions = []string{}
+	}
+	if doc.Explanation == "" {
+		doc.Explanation = "static rule set over the type-checked program; see DESIGN.md"
+	}
 	cov["explanation"] = doc.Explanation
 	cov["rule"] = "obligations are (rule, construct) pairs enumerated from the type-checked AST / go/ssa form of every library package of the current working tree; an obligation is non-trivial when a rule had to be applied to a construct found in the source (notes and absent constructs are not counted); distinct = distinct semantic keys"
 	cov["checker_cmd"] = "bin/gonnxcheck -repo /repo -property " + prop + " -tier " + tier
